@@ -1,12 +1,63 @@
 import NanoVerif.Proofs.Stats
+import NanoVerif.Proofs.StatsGen
+import NanoVerif.Proofs.StatsNth
+import NanoVerif.Proofs.StatsExp
+import NanoVerif.Proofs.StatsExpReal
+import NanoVerif.Proofs.StatsLin
+import NanoVerif.Proofs.StatsStore
 import Mathlib.Data.Rat.Floor
 /-!
   C20 — order statistics and histograms are consistent with a sorted-array reference.
 
-  Property theorems about the model `Model/Stats.lean`, in exact arithmetic: `α` is any linear ordered field with a
-  floor function (`ℚ`, `ℝ`, …); positions and bin indices are naturals. `std::sort` / `std::nth_element` enter as a
-  parameter `sort` with the contract `SortSpec` (sorted permutation), instantiated by `List.mergeSort`
-  (`mergeSort_sortSpec`). Helper lemmas are in `Proofs/Stats.lean`. Nothing is `_partial`.
+  Property theorems about the model `Model/Stats.lean` (+ `Model/StatsTyped.lean`, `Model/StatsExp.lean`), in exact
+  arithmetic: `α` is any linear ordered field with a floor function (`ℚ`, `ℝ`, …); positions and bin indices are naturals.
+  `std::sort` enters as a parameter `sort` with the contract `SortSpec` (sorted permutation), instantiated by
+  `List.mergeSort` (`mergeSort_sortSpec`); `std::nth_element` as a parameter `nth` with the PARTIAL-ORDER contract `NthSpec`
+  (instantiated by `nthBySort_spec`, monitored on the real function at run time). Helper lemmas are in `Proofs/Stats*.lean`.
+  Nothing is `_partial`.
+
+  GAP TABLE (gap-closing round) — every function of the anchored files
+  ---------------------------------------------------------------------------------------------------------------------
+  include/nano/core/stats.h
+    detail::percentile (15-37)            translated  Gen.Stats.percentileGuard / percentileBody (position formula, floor / ceil
+                                                      pair, lpos == rpos test, midpoint), tied to the model by
+                                                      `model_percentile_is_generated` / `model_percentileC_is_generated` (rfl)
+    percentile (42-54)                    modelled    `percentileNthC` (one or two nth_element calls on the caller's range, value
+                                                      read as double); `percentile` (= sorted view); wrapper text pinned by translate()
+    percentile_sorted (59-72)             modelled    `percentileSortedC`, `percentileSorted`; precondition `is_sorted` = hypothesis
+                                                      `hs` of `percentile_value_between`, necessary: `sorted_precondition_necessary`
+    median, median_sorted (77-90)         modelled    `medianNthC`, `medianSortedC`, `median`, `medianSorted`
+    std::nth_element                      oracle      parameter `nth` with contract `NthSpec`; MONITORED on every `pct unsorted` op
+                                                      (python `nth_monitor` on the range the harness reads back after the call)
+    std::sort                             oracle      parameter `sort` with contract `SortSpec` (result compared through every op)
+    AIC / AICc / BIC (100-147)            outside     not part of this statement; modelled by C10 (`Model/WLearner.lean`)
+  include/nano/core/histogram.h
+    histogram_t(begin, end, thresholds)   modelled    `mkHist` (sorts values AND thresholds: `ctor_sorts_thresholds`; the sort is
+                                                      necessary: `unsorted_thresholds_break_the_rule`)
+    make_from_thresholds                  modelled    `mkHist`
+    make_from_ratios (list)               modelled    `thresholdsFromRatios`, `histFromRatios`
+    make_from_ratios (bins)               modelled    `histFromEqRatios` (was: list read back)
+    make_from_percentiles (list)          modelled    `thresholdsFromPercentiles`, `histFromPercentiles`
+    make_from_percentiles (bins)          modelled    `histFromEqPercentiles` (was: list read back)
+    make_from_exponents                   modelled    `getExponent`, `exponentOf`, `expScan`, `expThresholds`, `histFromExponents`
+                                                      with `Libm` = log / pow / fabs (was: thresholds read back)
+    update, update_bin, mean              modelled    `bins`, `splitLt`, `binStat`, `mean`
+    bin(value)                            modelled    `binOf`, `upperBound` (NaN / ±inf queries compared at `Float`)
+    means / counts / medians / thresholds / bins / mean(b) / median(b) / count(b)
+                                          modelled    `Hist.stats`, `Hist.thresholds`; the harness checks accessor(b) = vector(b)
+  src/core/histogram.cpp
+    make_equidistant_ratios / percentiles modelled    `equidistantRatios`, `equidistantPercentiles` over `linSpaced`
+                                                      (= Eigen 3.4 `linspaced_op_impl<double,false>`, modelled as coded)
+  src/machine/stats.cpp, include/nano/machine/stats.h
+    store_stats                           modelled    `storeStats` (slot layout + percentile list translated: Gen.Stats)
+    load_stats, stats_t                   modelled    `loadStats`, `StatsT` (field names / order translated: `stats_fields_match`)
+    tensor::mean / variance / stdev       modelled    `tmean`, `tvariance`, `tstdev` (`tvariance_two_pass`, `tstdev_is_standard_error`)
+    std::sqrt                             oracle      class `HasSqrt` (bound to `Float.sqrt`; compared at rtol 1e-9)
+  src/wlearner/criterion.cpp
+    make_score                            outside     C10
+  outside every model: binary64 rounding (the theorems are exact; the double computation of the position is compared with the
+  exact one on the WHOLE grid p = 0..100, n = 1..500 — 50 500 pairs, both tiers — and on p = k/8 for every n in the thorough tier);
+  `int` overflow of `get_exponent` for `base < 1 + 2^-20`; NaN values / thresholds (`std::sort` undefined); empty ranges (UB).
 -/
 namespace NanoVerif.Stats
 set_option linter.unusedSectionVars false
@@ -463,6 +514,156 @@ theorem storeStats_spec [HasSqrt α] (sort : List α → List α) (hs : SortSpec
       exact hk
   · cases h
 
+/-! ### gap-closing round: nth_element contract, typed containers, constructor, exponents, equidistant lists, store/load -/
+
+/-- **percentile_nth_spec.** `nano::percentile` AS CODED — `std::nth_element` called once (integral position) or twice
+    (the second time on the range as the first call left it), each value converted to the scalar type at the read —
+    returns, for EVERY `nth_element` that meets the partial-order contract `NthSpec` and every container value type:
+    the order statistic at position `p (n-1) / 100` of the sorted data when that is integral, the midpoint (computed in
+    the scalar type, not in the container's) of the two neighbouring order statistics otherwise. -/
+theorem percentile_nth_spec {β : Type} [LinearOrder β] (cast : β → α) (nth : List β → ℕ → List β) (hn : NthSpec nth)
+    (xs : List β) (p : α) (hne : xs ≠ []) (h0 : 0 ≤ p) (h100 : p ≤ 100) :
+    ∃ (l r : ℕ) (hl : l < (msort xs).length) (hr : r < (msort xs).length),
+      ⌊p * ((xs.length - 1 : ℕ) : α) / 100⌋ = (l : ℤ) ∧ ⌈p * ((xs.length - 1 : ℕ) : α) / 100⌉ = (r : ℤ) ∧
+      (percentileNthC cast nth xs p).map Prod.fst =
+        some (if l = r then cast (msort xs)[l] else (cast (msort xs)[l] + cast (msort xs)[r]) / 2) ∧
+      ∀ v zs, percentileNthC cast nth xs p = some (v, zs) → zs.Perm xs := by
+  obtain ⟨hval, hperm⟩ := percentileNthC_spec cast nth hn xs p
+  have hlen : (msort xs).length = xs.length := (msortB_perm xs).length_eq
+  have hn' : 0 < xs.length := List.length_pos_of_ne_nil hne
+  obtain ⟨l, r, hfl, hcl, hl, hr, -, -⟩ := position_indices xs.length p hn' h0 h100
+  have hne' : (msort xs).map cast ≠ [] := by
+    intro e
+    have := congrArg List.length e
+    simp only [List.length_map, List.length_nil] at this
+    omega
+  have hl' : l < ((msort xs).map cast).length := by rw [List.length_map]; omega
+  have hr' : r < ((msort xs).map cast).length := by rw [List.length_map]; omega
+  have hfl' : ⌊position ((msort xs).map cast).length p⌋ = (l : ℤ) := by rw [List.length_map, hlen]; exact hfl
+  have hcl' : ⌈position ((msort xs).map cast).length p⌉ = (r : ℤ) := by rw [List.length_map, hlen]; exact hcl
+  refine ⟨l, r, by omega, by omega, ?_, ?_, ?_, hperm⟩
+  · rw [← position_eq]; exact hfl
+  · rw [← position_eq]; exact hcl
+  · rw [hval, percentileSortedC_eq_map, percentileSorted_eq _ p hne' h0 h100 l r hfl' hcl' hl' hr']
+    simp only [List.getElem_map]
+
+/-- the unsorted variant on a double container and the specification-level `percentile` of `Model/Stats.lean` agree -/
+theorem percentile_nth_eq_percentile (nth : List α → ℕ → List α) (hn : NthSpec nth) (sort : List α → List α)
+    (hs : SortSpec sort) (xs : List α) (p : α) :
+    (percentileNthC id nth xs p).map Prod.fst = percentile sort xs p := by
+  rw [(percentileNthC_spec id nth hn xs p).1, percentileSortedC_eq_map, List.map_id,
+    percentile_unsorted_eq_sorted sort hs]
+
+/-- **integer containers**: `percentile_sorted` of `std::vector<int>` is computed in double — the midpoint of two
+    integers is their rational midpoint (witness: 1, 2 ↦ 3/2, which no integer equals) -/
+theorem percentile_int_container (xs : List ℤ) (p : α) :
+    percentileSortedC (Int.cast : ℤ → α) xs p = percentileSorted (xs.map (Int.cast : ℤ → α)) p ∧
+    (xs.Pairwise (· ≤ ·) → (xs.map (Int.cast : ℤ → α)).Pairwise (· ≤ ·)) :=
+  ⟨percentileSortedC_eq_map _ xs p, map_cast_sorted _ (fun _ _ h => Int.cast_le.mpr h) xs⟩
+
+/-- **the precondition of `percentile_sorted` is necessary**: on the unsorted range 3, 1, 2 the sorted variant answers
+    1 (the value at position 1 as given), the unsorted variant — and the statement — say 2. Replayed on the code by the
+    corpus op `pct positional`. -/
+theorem sorted_precondition_necessary :
+    percentileSorted ([3, 1, 2] : List ℚ) 50 = some 1 ∧ percentile msort ([3, 1, 2] : List ℚ) 50 = some 2 := by
+  constructor
+  · decide +kernel
+  · have h : msort ([3, 1, 2] : List ℚ) = [1, 2, 3] :=
+      sorted_perm_unique ((msort_perm _).trans (by decide +kernel)) (msort_sorted _) (by decide +kernel)
+    unfold percentile
+    rw [h]
+    decide +kernel
+
+/-- **ctor_sorts_thresholds.** The public constructor stores a SORTED permutation of the thresholds it is given
+    (any order, duplicates allowed). -/
+theorem ctor_sorts_thresholds (sort : List α → List α) (hs : SortSpec sort) (vs ts : List α) (h : Hist α)
+    (hh : mkHist sort vs ts = some h) :
+    h.thresholds.Pairwise (· ≤ ·) ∧ h.thresholds.Perm ts ∧ h.cells = bins h.thresholds (sort vs) := by
+  unfold mkHist at hh
+  split at hh
+  · cases hh
+  · cases hh
+    exact ⟨(hs ts).2, (hs ts).1, rfl⟩
+
+/-- … and that sort is necessary: with the thresholds 2, 1 left as given, the `upper_bound` loop puts 3/2 into bin 0
+    although the counting rule `ts[i-1] ≤ v < ts[i]` also claims it for bin 2 — the bins would no longer be the rule's -/
+theorem unsorted_thresholds_break_the_rule :
+    bins ([2, 1] : List ℚ) [0, 3 / 2, 3] = [[0, 3 / 2], [], [3]] ∧
+    inBin ([2, 1] : List ℚ) 2 (3 / 2) = true ∧ inBin ([2, 1] : List ℚ) 0 (3 / 2) = true ∧
+    bins ([1, 2] : List ℚ) [0, 3 / 2, 3] = [[0], [3 / 2], [3]] := by decide +kernel
+
+/-- the constructor's sort of the VALUES is necessary as well: `update` on the unsorted range 2, 0 with the threshold 1
+    counts 0 / 2 where the rule says 1 / 1 -/
+theorem unsorted_values_break_the_rule :
+    bins ([1] : List ℚ) [2, 0] = [[], [2, 0]] ∧ bins ([1] : List ℚ) [0, 2] = [[0], [2]] := by decide +kernel
+
+/-- **load_store_roundtrip.** `load_stats(store_stats(values))`: the 12 slots fill the 12 fields of `stats_t` in
+    declaration order; `m_mean` is the arithmetic mean, `m_count` the number of values, `m_stdev` the quantity of
+    `tstdev_is_standard_error`, and every field `m_perNN` holds the percentile its NAME announces. -/
+theorem load_store_roundtrip [HasSqrt α] (sort : List α → List α) (hs : SortSpec sort) (vs st : List α)
+    (h : storeStats sort vs = some st) :
+    ∃ s : StatsT α, loadStats st = some s ∧ s.toList = st ∧
+      s.mean = vs.sum / (vs.length : α) ∧ s.stdev = tstdev vs ∧ s.count = (vs.length : α) ∧
+      ∀ kp ∈ s.named, percentileSorted (msort vs) ((kp.1 : ℕ) : α) = some kp.2 := by
+  obtain ⟨ps, rfl, hps⟩ := storeStats_spec sort hs vs st h
+  have hl : Gen.Stats.storeStatsPercentiles = [1, 5, 10, 20, 50, 80, 90, 95, 99] := rfl
+  rw [hl] at hps
+  obtain ⟨b1, t1, h1, hq1, rfl⟩ := List.forall₂_cons_left_iff.mp hps
+  obtain ⟨b2, t2, h2, hq2, rfl⟩ := List.forall₂_cons_left_iff.mp hq1
+  obtain ⟨b3, t3, h3, hq3, rfl⟩ := List.forall₂_cons_left_iff.mp hq2
+  obtain ⟨b4, t4, h4, hq4, rfl⟩ := List.forall₂_cons_left_iff.mp hq3
+  obtain ⟨b5, t5, h5, hq5, rfl⟩ := List.forall₂_cons_left_iff.mp hq4
+  obtain ⟨b6, t6, h6, hq6, rfl⟩ := List.forall₂_cons_left_iff.mp hq5
+  obtain ⟨b7, t7, h7, hq7, rfl⟩ := List.forall₂_cons_left_iff.mp hq6
+  obtain ⟨b8, t8, h8, hq8, rfl⟩ := List.forall₂_cons_left_iff.mp hq7
+  obtain ⟨b9, t9, h9, hq9, rfl⟩ := List.forall₂_cons_left_iff.mp hq8
+  have : t9 = [] := List.forall₂_nil_left_iff.mp hq9
+  subst this
+  refine ⟨⟨_, _, _, b1, b2, b3, b4, b5, b6, b7, b8, b9⟩, rfl, rfl, rfl, rfl, rfl, ?_⟩
+  intro kp hkp
+  simp only [StatsT.named, List.mem_cons, List.not_mem_nil, or_false] at hkp
+  rcases hkp with rfl | rfl | rfl | rfl | rfl | rfl | rfl | rfl | rfl <;> assumption
+
+/-- `store_stats` on ONE value `x`: mean `x`, stdev 0 (the `size() > 1` guard), count 1, every percentile `x`;
+    on an empty range the model has no value (the code reads `*(begin - 1)`: undefined, never generated) -/
+theorem storeStats_one_and_none [HasSqrt α] (sort : List α → List α) (hs : SortSpec sort) (x : α) :
+    storeStats sort [x] = some [x, 0, 1, x, x, x, x, x, x, x, x, x] ∧ storeStats sort ([] : List α) = none := by
+  have hsort : sort [x] = [x] := sortSpec_sorted_id hs [x] (List.pairwise_singleton _ _)
+  have hnil : sort ([] : List α) = [] := by
+    have := (hs []).1.length_eq
+    exact List.length_eq_zero_iff.mp this
+  have hp : ∀ k : ℕ, k ≤ 100 → percentile sort [x] ((k : ℕ) : α) = some x := by
+    intro k hk
+    unfold percentile
+    rw [hsort]
+    have h0 : (0 : α) ≤ (k : α) := Nat.cast_nonneg k
+    have h100 : (k : α) ≤ 100 := by exact_mod_cast hk
+    have hpos : position [x].length (k : α) = 0 := by simp [position_eq]
+    have := percentileSorted_eq [x] (k : α) (by simp) h0 h100 0 0 (by rw [hpos]; simp) (by rw [hpos]; simp)
+      (by simp) (by simp)
+    simpa using this
+  constructor
+  · unfold storeStats
+    have hl : Gen.Stats.storeStatsPercentiles = [1, 5, 10, 20, 50, 80, 90, 95, 99] := rfl
+    rw [hl]
+    have e : ∀ k : ℕ, (FloorI.ofNat k : α) = (k : α) := fun _ => rfl
+    simp only [mapOpt, e, hp 1 (by norm_num), hp 5 (by norm_num), hp 10 (by norm_num), hp 20 (by norm_num),
+      hp 50 (by norm_num), hp 80 (by norm_num), hp 90 (by norm_num), hp 95 (by norm_num), hp 99 (by norm_num)]
+    have hm : tmean [x] = x := by
+      unfold tmean
+      simp [FloorI.ofNat]
+    have hsd : tstdev [x] = 0 := (tstdev_small [x] (by simp)).2
+    rw [hm, hsd]
+    simp
+  · unfold storeStats
+    have hl : Gen.Stats.storeStatsPercentiles = [1, 5, 10, 20, 50, 80, 90, 95, 99] := rfl
+    rw [hl]
+    have : percentile sort ([] : List α) (FloorI.ofNat 1) = none := by
+      unfold percentile
+      rw [hnil]
+      simp [percentileSorted]
+    simp [mapOpt, this]
+
 /-! ### non-vacuity: the hypotheses are satisfiable and the definitions compute what the unit tests expect -/
 
 section examples
@@ -504,6 +705,28 @@ example : (mkHist msort ([1, 2] : List ℚ) []).isNone = true := by simp [mkHist
 example : percentileSorted ([1, 2] : List ℚ) 101 = none :=
   (percentileSorted_rejects ([1, 2] : List ℚ) 101).2 (Or.inr (by norm_num))
 example : storeStatsPercentiles.length + 3 = storeStatsSlots := by decide
+
+/-- gap-closing round: the contracts are satisfiable and the new definitions compute what the code computes -/
+example : NthSpec (nthBySort : List ℚ → ℕ → List ℚ) := nthBySort_spec
+example : NthSpec (nthBySort : List ℤ → ℕ → List ℤ) := nthBySort_spec
+example : percentileSortedC (Int.cast : ℤ → ℚ) [1, 2] 50 = some (3 / 2) := by decide +kernel
+example : ∀ z : ℤ, (z : ℚ) ≠ 3 / 2 := by
+  intro z h
+  have h2 : ((2 * z : ℤ) : ℚ) = ((3 : ℤ) : ℚ) := by push_cast; linarith
+  have := Int.cast_injective h2
+  omega
+example : (mkHist msort ([1, 2] : List ℚ) [3]).isSome = true := by simp [mkHist]
+/-- `PowSpec` / `FabsSpec` hold for the real instance; over `ℝ` the preconditions of the exponent theorems are satisfiable -/
+example : PowSpec (α := ℝ) := powSpec_real
+example : FabsSpec (α := ℝ) := fun _ => rfl
+example : (thresholdsFromExponents ([1, 2] : List ℝ) 2 1).isSome = true := by
+  obtain ⟨T, hT, -⟩ := (thresholdsFromExponents_spec ([1, 2] : List ℝ) 2 1).2 (by simp) (by norm_num) (by norm_num)
+  rw [hT]; rfl
+example : (1 : ℝ) < 2 ∧ (3 : ℝ) ≠ 0 := ⟨by norm_num, by norm_num⟩
+example : intRange (-1) 2 = [-1, 0, 1, 2] := by decide
+example : (loadStats ([1, 2, 3, 4, 5, 6, 7, 8, 9, 10, 11, 12] : List ℚ)).map (·.per50) = some 8 := by decide +kernel
+example : (loadStats ([1, 2, 3] : List ℚ)).isNone = true := by decide +kernel
+example : 1 < ([0, 2] : List ℚ).length := by decide
 
 end examples
 
